@@ -64,3 +64,72 @@ class PairRig:
 
     def close(self):
         self.bus.close()
+
+
+class LogCapture:
+    """Collects records of the 'canopen' loggers (and keeps them off stderr)."""
+
+    def __init__(self):
+        import logging
+
+        class H(logging.Handler):
+            def __init__(h):
+                super().__init__(level=logging.WARNING)
+                h.records = []
+
+            def emit(h, record):
+                if len(h.records) < 10000:
+                    h.records.append(record)
+        self.handler = H()
+        lg = logging.getLogger("canopen")
+        lg.addHandler(self.handler)
+        lg.propagate = False
+
+    @property
+    def records(self):
+        return self.handler.records
+
+    def exceptions(self):
+        return [r for r in self.handler.records if r.exc_info]
+
+
+class ServerRig:
+    """Real SdoServer (LocalNode) driven by the strict reference client through
+    Network.notify directly, so that an exception on the receive path is seen."""
+
+    def __init__(self, od, node_id=5):
+        import canopen
+        from canmon.ref.sdo_client import RefSdoClient
+        self.bus = simbus.SimBus(mode="inline")
+        self.net, self.station = simbus.make_network(self.bus, "slave", via="notify")
+        self.node = canopen.LocalNode(node_id, od)
+        self.net.add_node(self.node)
+        self.rx, self.tx = 0x600 + node_id, 0x580 + node_id
+        self.outbox = []
+        self.other_frames = []
+        self.rx_errors = []
+        self.bus.taps.append(self._tap)
+        self.client = RefSdoClient(self.transport)
+        self.requests = 0
+
+    def _tap(self, frame):
+        if frame.src == "slave" and frame.can_id == self.tx:
+            self.outbox.append(frame.data)
+        elif frame.src == "slave":
+            self.other_frames.append(frame)
+
+    def transport(self, frame):
+        self.outbox = []
+        self.requests += 1
+        self.bus.log.append(simbus.Frame(self.bus.now(), "refclient", self.rx, False, False, frame))
+        try:
+            self.net.notify(self.rx, bytearray(frame), self.bus.now())
+        except Exception as exc:  # noqa: BLE001 - the oracle's business
+            self.rx_errors.append((bytes(frame), exc))
+        return list(self.outbox)
+
+    def wire(self, last=40):
+        return [f.brief() for f in list(self.bus.log)[-last:]]
+
+    def close(self):
+        self.bus.close()
